@@ -360,7 +360,7 @@ def _body(mod, rows):
                             pats.append(c.bits)
                     body, i = parse_stmts(i + 1, ("case", "end"))
                     cases.append((pats, body))
-                out.append(("switch", sel, cases))
+                out.append(("switch", sel, cases, toks[1] == ("tok", "{}")))   # flag: the `switch {}` wrapper
             else:
                 raise RtlilError(f"line {ln}: unexpected {kw!r} in a process")
         raise RtlilError("unterminated process")
